@@ -183,7 +183,10 @@ def apalache(module, init="Init", next_="Next", inv="Inv", length=0, cinit=None,
     if cinit:
         cmd.append("--cinit=" + cinit)
     try:
-        p = subprocess.run(cmd + [module + ".tla"], cwd=d, capture_output=True, text=True, timeout=900)
+        jt = os.path.join(d, "jtmp")
+        os.makedirs(jt, exist_ok=True)               # SANY's temporary directories stay inside the scratch directory
+        p = subprocess.run(cmd + [module + ".tla"], cwd=d, capture_output=True, text=True, timeout=900,
+                           env=dict(os.environ, TMPDIR=jt))   # apalache-mc: mktemp -d -t SANY..
     except subprocess.TimeoutExpired:
         raise Infra("apalache timeout on %s.tla" % module)
     out = p.stdout + p.stderr
